@@ -208,6 +208,32 @@ CLAIMED = {
              "reported as such in the evidence (they are decided by executing the real functions).",
         technique="contract-based verification: regular-language equivalence (automata product) for acceptance; bounded exhaustive evaluation of the real parser/printer/equivalence for the rest",
     ),
+    "C12": dict(
+        category="proof",
+        text=("Relational proof by demonic set order: in padding, grid_ufunc, comodo, sgrid, metadata_parsers and metrics the names "
+              "set/frozenset are bound to versions whose iteration order is an explored choice (all permutations), the "
+              "face-connection table and boundary_width are presented in different insertion orders, and any two runs whose "
+              "path conditions can hold together are proved (z3) to produce the same dims, the same accept/reject outcome and, "
+              "for all sizes/widths/data, the same values INCLUDING halo corner cells; likewise Grid.axes order of COMODO/SGRID "
+              "autoparsed grids, equivalent() of signatures (1500 pairs) and the metric product get_metric chooses for three axes. "
+              "The inventory of set-creating sites is re-read from the AST on every run."),
+        design_ref="DESIGN.md 7/C12",
+        note=COMMON_NOTE + "Assumes hash randomisation reaches results only through iteration of set/frozenset of str created "
+             "in xgcm's Python code. Structures are enumerated (link shapes, registries, datasets).",
+        technique="contract-based relational verification: symbolic execution under demonic set-iteration order + z3 equivalence of the runs",
+    ),
+    "C14": dict(
+        category="proof",
+        text=("Round-trip contract proved by symbolic execution of the real parsers and Grid constructor: a dataset generated "
+              "from an explicit coords mapping by the COMODO annotation rule (every position set of <= 3 positions containing "
+              "center, both shift signs on inner/outer, 1-3 axes, both dimension orders; all coordinate lengths symbolic) or by "
+              "the SGRID rule (1-D / 2-D / 2-D+vertical / 3-D, every padding word, with and without a space after ':') parses "
+              "back to exactly that mapping; Grid(ds) equals the Grid built from the explicit mapping; SGRID is used iff declared; "
+              "user coords together with parsed coords are rejected."),
+        design_ref="DESIGN.md 7/C14",
+        note=COMMON_NOTE + "Attribute strings and names are concrete (str.replace/split run natively); name opacity is C13.",
+        technique="contract-based deductive verification: symbolic execution of the real parsers (round-trip postcondition)",
+    ),
 }
 
 NOT_YET = {}
